@@ -100,6 +100,9 @@ InputTimes == UNION { TimesOf(CntOf(series[s])) : s \in DOMAIN series }
 NothingInvented == TimesOf(CntOf(out)) \subseteq InputTimes /\ TimesOf(AggOf(out)) \subseteq InputTimes
 ChunksInOrder == \A i \in 1..(Len(out) - 1) : MinT(out[i]) <= MinT(out[i + 1])
 OnlyDoneIsFinal == ~Done => ENABLED Next
+(* liveness (weak fairness, no state constraint): the merged chunk iterator is exhausted eventually *)
+FairSpec == Spec /\ WF_vars(Next)
+Terminates == <>Done
 
 (* ---------------- leg B: shapes for the harness ---------------- *)
 CasesFile == IF "VERIF_CASES" \in DOMAIN IOEnv THEN IOEnv.VERIF_CASES ELSE "cases.ndjson"
